@@ -21,6 +21,12 @@ def main(tier):
     sub = behs if tier == 'thorough' else behs[vf.seed() % 3::3]
     n, nt = progfam.replay(chk, sub, 1, ['--roundtrip'], OWNED, tag='pairs', jobs=12, sig_of=sig)
     total += n; nontriv += nt
+    # the ingest path for >= 2^18 property vertices (plain -O2 serial build: the ASan build is too slow for 5e5 triangles)
+    vf.build('ser')
+    big = [json.dumps({'k': 'roundtripbig', 'n': 210})]
+    n, nt = progfam.replay(chk, big, 0, [], OWNED, variant='ser', tag='big', mode='det', jobs=1,
+                           sig_of=lambda f, beh: 'roundtrip|big|%s' % f['detail'].get('why', ''))
+    total += n; nontriv += nt
     chk.coverage.update({
         'evaluations': total, 'distinct_nontrivial': nontriv,
         'rule': 'Manifold(GetMeshGL64(m)) re-exported and compared as a canonical multiset of triangles over bit-exact corner '
